@@ -8,22 +8,65 @@ import (
 	"hash/fnv"
 	"math/rand"
 	"runtime"
+	"sync"
 	"time"
 
 	"go.opentelemetry.io/collector/component"
 	"go.opentelemetry.io/collector/confmap"
 	"go.opentelemetry.io/collector/confmap/provider/yamlprovider"
+	"go.opentelemetry.io/collector/exporter/exportertest"
 	"go.opentelemetry.io/collector/extension"
 	"go.opentelemetry.io/collector/featuregate"
 	"go.opentelemetry.io/collector/otelcol"
+	"go.opentelemetry.io/collector/receiver/receivertest"
 )
+
+// seqProvider hands out its documents one after the other (the last one again and again) and keeps the
+// watcher function of the latest retrieval, so that the driver can announce a configuration change.
+type seqProvider struct {
+	mu    sync.Mutex
+	docs  [][]byte
+	n     int
+	watch confmap.WatcherFunc
+}
+
+func (p *seqProvider) Retrieve(_ context.Context, _ string, w confmap.WatcherFunc) (*confmap.Retrieved, error) {
+	p.mu.Lock()
+	defer p.mu.Unlock()
+	k := p.n
+	if k >= len(p.docs) {
+		k = len(p.docs) - 1
+	}
+	p.n++
+	p.watch = w
+	var raw map[string]any
+	if err := json.Unmarshal(p.docs[k], &raw); err != nil {
+		return nil, err
+	}
+	return confmap.NewRetrieved(raw)
+}
+func (p *seqProvider) Scheme() string                 { return "seq" }
+func (p *seqProvider) Shutdown(context.Context) error { return nil }
+
+// warm-up configuration of the reload mode: stock no-op components, nothing of it is recorded
+const warmup = `{"receivers":{"nop":null},"exporters":{"nop":null},"service":{"telemetry":{"logs":{"level":"fatal"},"metrics":{"level":"none"}},"pipelines":{"logs/warmup":{"receivers":["nop"],"exporters":["nop"]}}}}`
 
 // runOne10Col runs one lifetime through the real otelcol.Collector: configuration document -> resolver ->
 // unmarshal -> validation -> service.New -> Start (on failure the collector itself must shut the service down,
 // otelcol/collector.go setupConfigurationComponents) -> Running -> Shutdown() -> service.Shutdown.
 // service.Start / service.Shutdown are not visible from outside: their results are taken from the collector
 // state (Running reached or not) and from the error Run returns.
-func runOne10Col(i int, cfg *Config, seed int64) (obs Obs10) {
+//
+// reload = true: the collector first brings up a warm-up configuration of no-op components; once it is Running
+// the provider announces a change and the scripted configuration is brought up BY THE RELOAD
+// (Collector.reloadConfiguration).  The statement makes no difference between the first and a later service of
+// a collector: a failing Start must be followed by the shutdown of everything, every component of the service
+// is shut down exactly once.
+func runOne10Col(i int, cfg *Config, seed int64) Obs10 { return runOne10ColMode(i, cfg, seed, false) }
+
+func runOne10ColReload(i int, cfg *Config, seed int64) Obs10 { return runOne10ColMode(i, cfg, seed, true) }
+
+func runOne10ColMode(i int, cfg *Config, seed int64, reload bool) (obs Obs10) {
 	obs = Obs10{I: i, Events: []Event{}}
 	h := fnv.New64a()
 	fmt.Fprintf(h, "c10col/%d/%d", seed, i)
@@ -85,6 +128,13 @@ func runOne10Col(i int, cfg *Config, seed int64) (obs Obs10) {
 		obs.NewErr = sptr(err.Error())
 		return obs
 	}
+	prov := &seqProvider{docs: [][]byte{text}}
+	if reload {
+		prov.docs = [][]byte{[]byte(warmup), text}
+		rf, ef := receivertest.NewNopFactory(), exportertest.NewNopFactory()
+		wi.rcvFac[rf.Type()] = rf
+		wi.expFac[ef.Type()] = ef
+	}
 	col, err := otelcol.NewCollector(otelcol.CollectorSettings{
 		Factories: func() (otelcol.Factories, error) {
 			return otelcol.Factories{Receivers: wi.rcvFac, Processors: wi.procFac, Exporters: wi.expFac,
@@ -94,8 +144,9 @@ func runOne10Col(i int, cfg *Config, seed int64) (obs Obs10) {
 		DisableGracefulShutdown: true,
 		SkipSettingGRPCLogger:   true,
 		ConfigProviderSettings: otelcol.ConfigProviderSettings{ResolverSettings: confmap.ResolverSettings{
-			URIs:              []string{"yaml:" + string(text)},
-			ProviderFactories: []confmap.ProviderFactory{yamlprovider.NewFactory()},
+			URIs: []string{"seq:doc"},
+			ProviderFactories: []confmap.ProviderFactory{yamlprovider.NewFactory(),
+				confmap.NewProviderFactory(func(confmap.ProviderSettings) confmap.Provider { return prov })},
 		}},
 	})
 	if err != nil {
@@ -117,6 +168,7 @@ func runOne10Col(i int, cfg *Config, seed int64) (obs Obs10) {
 	tick := time.NewTicker(200 * time.Microsecond)
 	defer tick.Stop()
 	running := false
+	warm := !reload // the warm-up service (reload mode) has been seen Running and the change has been announced
 	var runErr error
 wait:
 	for {
@@ -127,6 +179,25 @@ wait:
 			obs.Timeout = true
 			return obs
 		case <-tick.C:
+			if !warm {
+				if col.GetState() == otelcol.StateRunning {
+					warm = true
+					prov.mu.Lock()
+					wf := prov.watch
+					prov.mu.Unlock()
+					go wf(&confmap.ChangeEvent{})
+				}
+				continue
+			}
+			if reload {
+				// Running again only counts once the scripted service is being built (its first recorded call)
+				w.mu.Lock()
+				n := len(w.events)
+				w.mu.Unlock()
+				if n == 0 {
+					continue
+				}
+			}
 			if !running && col.GetState() == otelcol.StateRunning {
 				running = true
 				// service.Start has returned nil: nothing may be started after this point
@@ -212,4 +283,11 @@ func runC10Col(in, out string, seed int64) error {
 		return err
 	}
 	return runScripts(in, out, seed, runOne10Col)
+}
+
+func runC10ColReload(in, out string, seed int64) error {
+	if err := featuregate.GlobalRegistry().Set("service.profilesSupport", true); err != nil {
+		return err
+	}
+	return runScripts(in, out, seed, runOne10ColReload)
 }
